@@ -696,6 +696,237 @@ Theorem C05_rbig_consistent_with_relaxed : forall a b, reduced a -> reduced b ->
 Proof. exact rbig_consistent_with_relaxed. Qed.
 Print Assumptions C05_rbig_consistent_with_relaxed.
 
+(* ================================================================== deepening round 4 *)
+From Dashu Require Int.GrlSpec Int.IoSpec Float.ElemF32 Float.ElemAsis Float.LongModel Float.NormalProof Float.FixModel.
+From Dashu Require Import Int.ReprOrdArith3Model Int.ReprOrdArith3 Int.HashSeqModel Int.HashSeqProofs Float.FloatOrdProducers2Model Float.FloatOrdProducers3.
+From DashuGen Require Import HashGen.
+
+(* ------------------------------------------------------------------ integers: gcd, gcd_ext, roots, pow, radix parsing at Repr level.
+   The value-level / word-level as-is models are C12's (Lehmer, Karatsuba square root, Newton, primitive routines), C01's
+   (pow.rs at word level) and C07's (word-level parser); the dispatch, the reduction of the large/dword gcd forms, the signs
+   and the storing are modelled and proved here.  Every word size w >= 8 (sqrt: the primitive widths 8..64). *)
+Theorem C05_repr_gcd : forall w, 8 <= w -> forall fuel c a b r, canonical w a -> canonical w b ->
+  repr_gcd w fuel c a b = Ok r -> canonical w r /\ rvalue w r = Z.gcd (rvalue w a) (rvalue w b).
+Proof. exact repr_gcd_ok. Qed.
+Print Assumptions C05_repr_gcd.
+
+Theorem C05_repr_gcd_small_panics : forall w, 8 <= w -> forall fuel c a b p, canonical w a -> canonical w b ->
+  Z.abs (rvalue w a) < Words.B w * Words.B w -> Z.abs (rvalue w b) < Words.B w * Words.B w ->
+  repr_gcd w fuel c a b = Panic p -> rvalue w a = 0 /\ rvalue w b = 0 /\ p = GcdZeroZero.
+Proof. exact repr_gcd_small_panics. Qed.
+Print Assumptions C05_repr_gcd_small_panics.
+
+(** gcd::gcd_ext_word / gcd_ext_dword (large operand against one or two words): the rebuilt cofactor satisfies Bezout *)
+Theorem C05_gcd_ext_small_bezout : forall fuel big rhs g s t, 0 <= big -> 0 <= rhs ->
+  gcd_ext_small_val fuel big rhs = Ok (g, s, t) -> g = Z.gcd big rhs /\ s * big + t * rhs = g.
+Proof. exact gcd_ext_small_val_ok. Qed.
+Print Assumptions C05_gcd_ext_small_bezout.
+
+Theorem C05_repr_gcd_ext : forall w, 8 <= w -> forall fuel c a b rs, canonical w a -> canonical w b ->
+  repr_gcd_ext w fuel c a b = Ok rs ->
+  exists g s t, rs = [g; s; t] /\ canonical w g /\ canonical w s /\ canonical w t /\
+    rvalue w g = Z.gcd (rvalue w a) (rvalue w b) /\
+    rvalue w s * rvalue w a + rvalue w t * rvalue w b = rvalue w g.
+Proof. exact repr_gcd_ext_ok. Qed.
+Print Assumptions C05_repr_gcd_ext.
+
+Theorem C05_repr_sqrt : forall w, 8 <= w -> w = 8 \/ w = 16 \/ w = 32 \/ w = 64 -> forall fuel c a, canonical w a ->
+  match rsign a with
+  | Positive => forall r, repr_sqrt w fuel c a = Ok r -> canonical w r /\ rvalue w r = Z.sqrt (rvalue w a)
+  | Negative => repr_sqrt w fuel c a = Panic RootNegative
+  end.
+Proof. exact repr_sqrt_ok. Qed.
+Print Assumptions C05_repr_sqrt.
+
+Theorem C05_repr_sqrt_rem : forall w, 8 <= w -> w = 8 \/ w = 16 \/ w = 32 \/ w = 64 -> forall fuel c a rs, canonical w a ->
+  repr_sqrt_rem w fuel c a = Ok rs ->
+  exists s r, rs = [s; r] /\ canonical w s /\ canonical w r /\
+    rvalue w s = Z.sqrt (Z.abs (rvalue w a)) /\ rvalue w r = Z.abs (rvalue w a) - rvalue w s * rvalue w s.
+Proof. exact repr_sqrt_rem_ok. Qed.
+Print Assumptions C05_repr_sqrt_rem.
+
+Theorem C05_repr_nth_root : forall w, 8 <= w -> w = 8 \/ w = 16 \/ w = 32 \/ w = 64 -> forall fuel c a n r, canonical w a -> 0 < n ->
+  repr_nth_root w fuel c a n = Ok r -> canonical w r /\ GrlSpec.iroot_cert n (rvalue w a) (rvalue w r) = true.
+Proof. exact repr_nth_root_ok. Qed.
+Print Assumptions C05_repr_nth_root.
+
+Theorem C05_repr_nth_root_any_word : forall w, 8 <= w -> forall fuel c a n r, canonical w a -> 0 < n -> n <> 2 ->
+  repr_nth_root w fuel c a n = Ok r -> canonical w r /\ GrlSpec.iroot_cert n (rvalue w a) (rvalue w r) = true.
+Proof. exact repr_nth_root_ok_any. Qed.
+Print Assumptions C05_repr_nth_root_any_word.
+
+Theorem C05_repr_nth_root_panics : forall w, 8 <= w -> forall fuel c a, canonical w a ->
+  repr_nth_root w fuel c a 0 = Panic RootZeroth /\
+  (forall n, n <> 0 -> rvalue w a < 0 -> Z.even n = true -> repr_nth_root w fuel c a n = Panic RootNegative).
+Proof. exact repr_nth_root_panics. Qed.
+Print Assumptions C05_repr_nth_root_panics.
+
+(** total: pow.rs at word level (C01) never fails; canonical result, the power *)
+Theorem C05_repr_pow : forall w, 8 <= w -> forall cap c a e, canonical w a -> 0 <= e ->
+  exists r, repr_ipow w cap c a e = Ok r /\ canonical w r /\ rvalue w r = rvalue w a ^ e.
+Proof. exact repr_ipow_ok. Qed.
+Print Assumptions C05_repr_pow.
+
+Theorem C05_parse_is_spec : forall w, 8 <= w -> forall sg r s, w mod 2 = 0 ->
+  parse_val w sg r s = IoSpec.from_str_radix_spec sg r s.
+Proof. exact parse_val_is_spec. Qed.
+Print Assumptions C05_parse_is_spec.
+
+Theorem C05_repr_parse : forall w, 8 <= w -> forall sg c r s x, w mod 2 = 0 ->
+  repr_parse w sg c r s = Ok x -> canonical w x /\ IoSpec.from_str_radix_spec sg r s = Ok (rvalue w x).
+Proof. exact repr_parse_ok. Qed.
+Print Assumptions C05_repr_parse.
+
+Theorem C05_producer_history_canonical : forall w, 8 <= w -> forall os p,
+  Forall (canonical w) p -> Forall (aop3_ok w) os -> Forall (canonical w) (arun3 w p os).
+Proof. exact arun3_canonical. Qed.
+Print Assumptions C05_producer_history_canonical.
+
+(** every finite history over constructors, copies, sign changes, in-place updates, + - * sqr cubic, all division forms,
+    & | ^ ! << >>, gcd, gcd_ext, sqrt, sqrt_rem, nth_root, pow and from_str_radix *)
+Theorem C05_producer_history_values_compare : forall w, 8 <= w -> forall os a b, Forall (aop3_ok w) os ->
+  In a (arun3 w [] os) -> In b (arun3 w [] os) ->
+  (repr_eq a b = true <-> rvalue w a = rvalue w b) /\
+  ibig_cmp w a b = (rvalue w a ?= rvalue w b) /\
+  (ibig_cmp w a b = Eq <-> repr_eq a b = true) /\
+  (rvalue w a = rvalue w b -> hash_input a = hash_input b) /\
+  (abs_eq a b = true <-> Z.abs (rvalue w a) = Z.abs (rvalue w b)) /\
+  abs_cmp w a b = (Z.abs (rvalue w a) ?= Z.abs (rvalue w b)).
+Proof. exact producer_history_values_compare. Qed.
+Print Assumptions C05_producer_history_values_compare.
+
+(* ------------------------------------------------------------------ the call sequence of Hash::hash, any Hasher, any word size *)
+Theorem C05_hash_calls_eq : forall w, 0 < w -> forall le a b, canonical w a -> canonical w b -> rvalue w a = rvalue w b ->
+  repr_hash le w a = repr_hash le w b.
+Proof. exact repr_hash_eq. Qed.
+Print Assumptions C05_hash_calls_eq.
+
+Theorem C05_any_hasher_agrees : forall w, 0 < w -> forall le a b, canonical w a -> canonical w b -> rvalue w a = rvalue w b ->
+  forall (S : Type) (H : hasher S) (st : S),
+    feed H st (repr_hash le w a) = feed H st (repr_hash le w b) /\
+    h_finish H (feed H st (repr_hash le w a)) = h_finish H (feed H st (repr_hash le w b)).
+Proof. exact any_hasher_agrees. Qed.
+Print Assumptions C05_any_hasher_agrees.
+
+Theorem C05_hash_byte_stream_eq : forall w, 0 < w -> forall le pw a b, canonical w a -> canonical w b -> rvalue w a = rvalue w b ->
+  byte_stream le pw (repr_hash le w a) = byte_stream le pw (repr_hash le w b).
+Proof. exact byte_stream_eq. Qed.
+Print Assumptions C05_hash_byte_stream_eq.
+
+(** the hasher input of rounds 1-3 (discriminant, length, words) is this sequence before the byte encoding *)
+Theorem C05_hash_calls_of_input : forall w le r,
+  repr_hash le w r = match hash_input r with
+                     | d :: n :: ws => [HWriteIsize d; HWriteUsize n; HWrite (slice_bytes le w ws)]
+                     | _ => []
+                     end.
+Proof. exact repr_hash_of_input. Qed.
+Print Assumptions C05_hash_calls_of_input.
+
+Theorem C05_rbig_hash_calls : forall w, 0 < w -> forall le na da nb db,
+  canonical w na -> canonical w da -> canonical w nb -> canonical w db ->
+  reduced (QR (rvalue w na) (rvalue w da)) -> reduced (QR (rvalue w nb) (rvalue w db)) ->
+  qeq_spec (QR (rvalue w na) (rvalue w da)) (QR (rvalue w nb) (rvalue w db)) = true ->
+  rbig_hash le w na da = rbig_hash le w nb db /\
+  forall (S : Type) (H : hasher S) (st : S), feed H st (rbig_hash le w na da) = feed H st (rbig_hash le w nb db).
+Proof. exact rbig_hash_eq. Qed.
+Print Assumptions C05_rbig_hash_calls.
+
+Theorem C05_hash_calls_inj : forall w, 0 < w -> forall le a b, w mod 8 = 0 -> canonical w a -> canonical w b ->
+  repr_hash le w a = repr_hash le w b -> rvalue w a = rvalue w b.
+Proof. exact repr_hash_inj. Qed.
+Print Assumptions C05_hash_calls_inj.
+
+(** NOT cross-build stable: builds with different word sizes feed different sequences for every non-zero value *)
+Theorem C05_hash_depends_on_word_size : forall le1 le2 w1 w2 a b, 0 < w1 -> 0 < w2 -> w1 mod 8 = 0 -> w2 mod 8 = 0 -> w1 <> w2 ->
+  canonical w1 a -> canonical w2 b -> rvalue w1 a = rvalue w2 b -> rvalue w1 a <> 0 ->
+  repr_hash le1 w1 a <> repr_hash le2 w2 b.
+Proof. exact hash_depends_on_word_size. Qed.
+Print Assumptions C05_hash_depends_on_word_size.
+
+Theorem C05_hash_of_zero : forall le w r, 0 < w -> canonical w r -> rvalue w r = 0 ->
+  repr_hash le w r = [HWriteIsize 0; HWriteUsize 0; HWrite []].
+Proof. exact hash_of_zero. Qed.
+Print Assumptions C05_hash_of_zero.
+
+(** regenerated from integer/src/repr.rs, cmp.rs, ubig.rs, ibig.rs, base/src/sign.rs on every run *)
+Theorem C05_repr_hash_gen_is_model : forall le w r, hash_fields le w r repr_hash_steps_gen = repr_hash le w r.
+Proof. exact repr_hash_gen_is_model. Qed.
+Print Assumptions C05_repr_hash_gen_is_model.
+
+Theorem C05_sign_disc_gen_is_model : forall s, sign_disc_gen s = sign_disc s.
+Proof. exact sign_disc_gen_is_model. Qed.
+Print Assumptions C05_sign_disc_gen_is_model.
+
+Theorem C05_int_derive_lists :
+  (forall t, In t [TrHash; TrPartialEq; TrEq] -> In t ubig_derives_gen /\ In t ibig_derives_gen /\ In t sign_derives_gen) /\
+  ~ In TrOrd ubig_derives_gen /\ ~ In TrOrd ibig_derives_gen /\ ~ In TrPartialOrd ubig_derives_gen /\ ~ In TrPartialOrd ibig_derives_gen /\
+  repr_eq_views_gen = [VSignSlice; VSignSlice].
+Proof. exact int_derive_lists. Qed.
+Print Assumptions C05_int_derive_lists.
+
+Theorem C05_typed_cmp_gen_is_model : forall a b, typed_cmp_gen a b = typed_cmp a b.
+Proof. exact typed_cmp_gen_is_model. Qed.
+Print Assumptions C05_typed_cmp_gen_is_model.
+
+Theorem C05_ibig_cmp_gen_is_model : forall w a b, ibig_cmp_gen w a b = ibig_cmp w a b.
+Proof. exact ibig_cmp_gen_is_model. Qed.
+Print Assumptions C05_ibig_cmp_gen_is_model.
+
+(** which comparison impls exist between UBig, IBig and primitives (finite regenerated table): ==, <, cmp only within one
+    type; the four AbsOrd and four AbsEq pairs read magnitudes only *)
+Theorem C05_int_cmp_impl_table :
+  forallb impl_ok int_cmp_impls_gen = true /\
+  forallb (fun sr => has_impl TrAbsOrd (fst sr) (snd sr) && has_impl TrAbsEq (fst sr) (snd sr))
+          [(TUBig, TUBig); (TIBig, TIBig); (TIBig, TUBig); (TUBig, TIBig)] = true /\
+  forallb (fun t => has_impl TrOrd t t && has_impl TrPartialOrd t t) [TUBig; TIBig] = true /\
+  forallb (fun t => negb (has_impl t TUBig TIBig) && negb (has_impl t TIBig TUBig) && negb (has_impl t TUBig TOther) && negb (has_impl t TIBig TOther))
+          [TrPartialEq; TrEq; TrPartialOrd; TrOrd] = true /\
+  cmp_in_place_shape_gen = 1.
+Proof. exact int_cmp_impl_table. Qed.
+Print Assumptions C05_int_cmp_impl_table.
+
+(* ------------------------------------------------------------------ floats: the replayed producer is C03's `_n` model; exp / ln / powi / powf *)
+Theorem C05_fprod_is_c03_model : forall B, 2 <= B -> forall du dl o p m s1 e1 s2 e2,
+  LongModel.is_normal B s1 e1 = true -> LongModel.is_normal B s2 e2 = true ->
+  let raw := match o with
+             | FoAdd => FixModel.ctx_add_fix_n B du p m s1 e1 s2 e2 | FoSub => FixModel.ctx_sub_fix_n B du p m s1 e1 s2 e2
+             | FoMul => Ok (FixModel.ctx_mul_fix_n B p m s1 e1 s2 e2) | FoSqr => Ok (FixModel.ctx_sqr_fix_n B p m s1 e1)
+             | FoCubic => Ok (FixModel.ctx_cubic_fix_n B p m s1 e1)
+             | FoDiv => FixModel.repr_div_fix_n B p m s1 e1 s2 e2 | FoInv => FixModel.ctx_inv_fix_n B p m s1 e1
+             | FoSqrt => LongModel.ctx_sqrt_n B p m s1 e1
+             end in
+  FloatOrdProducers2Model.fprod_asis B du dl o p m s1 e1 s2 e2 =
+    match raw with
+    | Ok a => Ok (approx_sig a, approx_exp a, match a with AExact _ _ => None | AInexact _ _ r => Some r end)
+    | Panic c => Panic c | Err c => Err c | OutOfFuel => OutOfFuel
+    end.
+Proof. exact fprod_asis_is_c03_model. Qed.
+Print Assumptions C05_fprod_is_c03_model.
+
+(** C11's as-is models of Context::powi / exp / exp_m1 / ln / ln_1p / powf return normalised pairs: every base, precision,
+    mode, operand, fuel, word size and f32 estimate layer *)
+Theorem C05_float_elem_normalized : forall B, 2 <= B -> forall (F : Type) (O : ElemF32.f32ops F) W fuel p m s e n ys ye flag,
+  (forall a, ElemAsis.powi_asis B p m s e n = Ok a -> NormalProof.approx_normal B a) /\
+  (forall a, ElemAsis.exp_internal B O W fuel p m s e flag = Ok a -> NormalProof.approx_normal B a) /\
+  (forall a, ElemAsis.ln_internal B O W fuel p m s e flag = Ok a -> NormalProof.approx_normal B a) /\
+  (forall a, ElemAsis.powf_asis B O W fuel p m s e ys ye = Ok a -> NormalProof.approx_normal B a).
+Proof. exact elem_results_normal. Qed.
+Print Assumptions C05_float_elem_normalized.
+
+Theorem C05_float_producers3_normalized : forall B x, 2 <= B -> produced3 B x -> fwf x /\ normalized_ext B x.
+Proof. exact produced3_normalized. Qed.
+Print Assumptions C05_float_producers3_normalized.
+
+Theorem C05_float_eq_sound_on_producers3 : forall B digits_ub x y, 2 <= B ->
+  (forall s, s <> 0 -> Z.abs s < B ^ (digits_ub s + 1)) ->
+  produced3 B x -> produced3 B y ->
+  fbig_eq x y = feq_spec B x y /\
+  repr_cmp_same_base B digits_ub false x y = fcmp_spec B x y /\
+  repr_cmp_same_base B digits_ub true x y = fabs_cmp_spec B x y /\
+  (repr_cmp_same_base B digits_ub false x y = Eq <-> fbig_eq x y = true).
+Proof. exact fbig_eq_sound_on_producers3. Qed.
+Print Assumptions C05_float_eq_sound_on_producers3.
+
 (* ------------------------------------------------------------------ Repr::digits_ub: the hypothesis of the float theorems is a
    theorem for the f32 code (arms regenerated from float/src/repr.rs), for every sound log2 estimator *)
 From Coq Require Import Reals.
